@@ -6,6 +6,7 @@ mod reader_l1;
 mod recreader;
 mod refcodec;
 mod tracefile;
+mod untrusted;
 
 fn main() {
     let args: Vec<String> = std::env::args().collect();
@@ -18,6 +19,8 @@ fn main() {
         "reader-l1" => reader_l1::main(&args[2..]),
         "chunker-l1" => chunker_l1::main(&args[2..]),
         "compress-rt" => compress_rt::main(&args[2..]),
+        "untrusted" => untrusted::main(&args[2..]),
+        "untrusted-worker" => untrusted::worker_main(),
         x => {
             eprintln!("unknown subcommand {}", x);
             std::process::exit(2);
